@@ -4,8 +4,8 @@
 package e2e
 
 import (
-	"io"
 	"fmt"
+	"io"
 	"net"
 	"os"
 	"path/filepath"
@@ -14,11 +14,11 @@ import (
 	"sync"
 	"time"
 
+	"github.com/prometheus/client_golang/prometheus"
 	"github.com/relex/gotils/logger"
 	"github.com/relex/slog-agent/base"
 	"github.com/relex/slog-agent/defs"
 	"github.com/relex/slog-agent/output/fluentdforward"
-	"github.com/prometheus/client_golang/prometheus"
 	"github.com/relex/slog-agent/run"
 
 	"verifharness/vh"
@@ -28,11 +28,11 @@ import (
 // scenario
 
 type Rec struct {
-	App     int  `json:"app"`            // index into apps
-	Host    int  `json:"host"`           // index into hosts
-	Size    int  `json:"size"`           // payload bytes
-	Kind    int  `json:"kind,omitempty"` // 0 normal, 1 filtered by the pipeline's drop rule, 2 malformed but record-shaped (rejected by the parser), 3 filtered by the drop rule among the input extractions
-	Pause   int  `json:"pause,omitempty"` // ms to wait before sending this record
+	App   int `json:"app"`             // index into apps
+	Host  int `json:"host"`            // index into hosts
+	Size  int `json:"size"`            // payload bytes
+	Kind  int `json:"kind,omitempty"`  // 0 normal, 1 filtered by the pipeline's drop rule, 2 malformed but record-shaped (rejected by the parser), 3 filtered by the drop rule among the input extractions
+	Pause int `json:"pause,omitempty"` // ms to wait before sending this record
 }
 
 type ConnSpec struct {
@@ -48,45 +48,46 @@ type ConnSpec struct {
 
 // ReloadSpec is one configuration reload (what SIGHUP triggers) placed during the traffic of a generation.
 type ReloadSpec struct {
-	AtMs    int    `json:"atMs"`    // ms after the clients were started
-	Variant string `json:"variant"` // valid | invalid | incompatible (other orchestration keys) | shifted (schema fields moved)
+	AtMs    int    `json:"atMs"`            // ms after the clients were started
+	Variant string `json:"variant"`         // valid | invalid | incompatible (other orchestration keys) | shifted (schema fields moved)
 	Burst   int    `json:"burst,omitempty"` // real-signal mode only: this many SIGHUPs a few ms apart instead of one (signals arriving while a reload runs)
 }
 
 // ReloadObs is what was observed around one reload.
 type ReloadObs struct {
-	Gen        int
-	Variant    string
-	Start, End time.Time
-	Burst      int     // number of signals sent for this reload (real-signal mode; 0/1 = one)
-	OK, Failed float64 // increase of slogagent_reloads_total{status=success|failure} across the call
-	QueuesWithFiles int // queue directories that held chunk files right after the reload returned
-	Orphans    []string // queue directories that held chunk files right after the reload returned and for which the new pipeline set has no pipeline
+	Gen             int
+	Variant         string
+	Start, End      time.Time
+	Burst           int      // number of signals sent for this reload (real-signal mode; 0/1 = one)
+	OK, Failed      float64  // increase of slogagent_reloads_total{status=success|failure} across the call
+	QueuesWithFiles int      // queue directories that held chunk files right after the reload returned
+	Orphans         []string // queue directories that held chunk files right after the reload returned and for which the new pipeline set has no pipeline
 }
 
 type Generation struct {
-	Conns     []ConnSpec           `json:"conns"`
-	Upstream  [][]vh.UpstreamAttempt `json:"upstream"` // per output: script of upstream connection attempts
-	Down      []bool               `json:"down,omitempty"` // per output: the upstream does not listen at all during this generation
-	StopAfter int                  `json:"stopAfter"`  // ms to wait after the input was read before stopping (0 = at once)
-	StopMid   bool                 `json:"stopMid,omitempty"` // stop while connections are still sending
-	Reload    string               `json:"reload,omitempty"`  // "", valid, invalid, incompatible: one reload after the traffic was read (reloader mode)
-	Reloads   []ReloadSpec         `json:"reloads,omitempty"` // reloads while the clients are sending (reloader mode)
+	Conns     []ConnSpec             `json:"conns"`
+	Upstream  [][]vh.UpstreamAttempt `json:"upstream"`          // per output: script of upstream connection attempts
+	Down      []bool                 `json:"down,omitempty"`    // per output: the upstream does not listen at all during this generation
+	StopAfter int                    `json:"stopAfter"`         // ms to wait after the input was read before stopping (0 = at once)
+	StopMid   bool                   `json:"stopMid,omitempty"` // stop while connections are still sending
+	Reload    string                 `json:"reload,omitempty"`  // "", valid, invalid, incompatible: one reload after the traffic was read (reloader mode)
+	Reloads   []ReloadSpec           `json:"reloads,omitempty"` // reloads while the clients are sending (reloader mode)
 }
 
 type Scenario struct {
-	KeyHost    bool         `json:"keyHost"`   // orchestration keys [app, host] instead of [app]
-	Modes      []string     `json:"modes"`     // message mode per output (1 or 2 outputs)
-	TinyQuota  bool         `json:"tinyQuota"` // maxBufSize smaller than a few chunks
-	MemWindow  int          `json:"memWindow"` // defs.BufferMaxNumChunksInMemory
-	ChunkBytes int          `json:"chunkBytes"` // Forward chunk byte limit (hook H3)
-	BatchLogs  int          `json:"batchLogs"`  // defs.IntermediateBufferMaxNumLogs
-	Reloader   bool         `json:"reloader,omitempty"` // run with NewReloaderFromConfigFile
-	Family     string       `json:"family,omitempty"`   // generator family (classification only)
-	Secret     bool         `json:"secret,omitempty"`   // the outputs use a shared key: every upstream connection starts with the Forward handshake
-	RotateMs   int          `json:"rotateMs,omitempty"` // upstream.maxDuration in ms (0 = 30 min): periodic reconnection, i.e. the client's soft stop with chunks in flight
-	FlushMs    int          `json:"flushMs,omitempty"`  // defs.IntermediateFlushInterval in ms (0 = 20): a long interval lets chunks fill up to the byte limit
-	Gens       []Generation `json:"gens"`
+	KeyHost     bool         `json:"keyHost"`               // orchestration keys [app, host] instead of [app]
+	Modes       []string     `json:"modes"`                 // message mode per output (1 or 2 outputs)
+	TinyQuota   bool         `json:"tinyQuota"`             // maxBufSize smaller than a few chunks
+	QuotaChunks int          `json:"quotaChunks,omitempty"` // maxBufSize = this many times the chunk byte limit (0 = 200 MB, or two with tinyQuota)
+	MemWindow   int          `json:"memWindow"`             // defs.BufferMaxNumChunksInMemory
+	ChunkBytes  int          `json:"chunkBytes"`            // Forward chunk byte limit (hook H3)
+	BatchLogs   int          `json:"batchLogs"`             // defs.IntermediateBufferMaxNumLogs
+	Reloader    bool         `json:"reloader,omitempty"`    // run with NewReloaderFromConfigFile
+	Family      string       `json:"family,omitempty"`      // generator family (classification only)
+	Secret      bool         `json:"secret,omitempty"`      // the outputs use a shared key: every upstream connection starts with the Forward handshake
+	RotateMs    int          `json:"rotateMs,omitempty"`    // upstream.maxDuration in ms (0 = 30 min): periodic reconnection, i.e. the client's soft stop with chunks in flight
+	FlushMs     int          `json:"flushMs,omitempty"`     // defs.IntermediateFlushInterval in ms (0 = 20): a long interval lets chunks fill up to the byte limit
+	Gens        []Generation `json:"gens"`
 }
 
 // one key value with separator characters (the queue directory name is a sanitised form of it), one that is not valid
@@ -99,52 +100,53 @@ var levels = []string{"off", "fatal", "crit", "error", "warn", "notice", "info",
 // observations
 
 type Expected struct {
-	Stamp   string
-	Log     string
-	App     string
-	Host    string
-	Level   string
-	Source  string
-	Gen     int
-	Conn    int
-	Seq     int // sequence within (gen, conn, key)
-	Key     string
-	Kind    int
-	DialAt  time.Time // when the client connection of this record was opened
-	Must    bool // provably read by the agent (graceful connection whose records were all counted)
-	Line    int  // length of the line in bytes (without newline)
+	Stamp    string
+	Log      string
+	App      string
+	Host     string
+	Level    string
+	Source   string
+	Gen      int
+	Conn     int
+	Seq      int // sequence within (gen, conn, key)
+	Key      string
+	Kind     int
+	DialAt   time.Time // when the client connection of this record was opened
+	QueuedAt time.Time // when the client put the record into its write buffer (after the record's pause); it is written later
+	Must     bool      // provably read by the agent (graceful connection whose records were all counted)
+	Line     int       // length of the line in bytes (without newline)
 }
 
 type StopObs struct {
-	Gen          int
-	StopMs       float64
-	Disk         []map[string]*vh.ForwardMessage // per output: chunk ID -> decoded message (files in the queue directories)
-	DiskErrors   []string
-	Metrics      vh.Metrics
-	MetricsErr   string // error returned by the agent's metric gatherer (the /metrics endpoint answers 500 then)
-	InputDrained bool
-	SentLines    int // lines written by clients on connections closed gracefully
-	SentBytes    int
-	OpenLines    int // lines written on connections still open at the stop
-	UpstreamAtStop []string
+	Gen                      int
+	StopMs                   float64
+	Disk                     []map[string]*vh.ForwardMessage // per output: chunk ID -> decoded message (files in the queue directories)
+	DiskErrors               []string
+	Metrics                  vh.Metrics
+	MetricsErr               string // error returned by the agent's metric gatherer (the /metrics endpoint answers 500 then)
+	InputDrained             bool
+	SentLines                int // lines written by clients on connections closed gracefully
+	SentBytes                int
+	OpenLines                int // lines written on connections still open at the stop
+	UpstreamAtStop           []string
 	ReloadsOK, ReloadsFailed float64
-	AckedStamps  []map[string]bool // per output: stamps of records in messages acknowledged by the server so far
-	AckedChunks  []map[string]int  // per output: chunk ID -> number of acknowledged receptions so far
-	SeenChunks   []map[string]bool // per output: chunk IDs completely received so far
+	AckedStamps              []map[string]bool // per output: stamps of records in messages acknowledged by the server so far
+	AckedChunks              []map[string]int  // per output: chunk ID -> number of acknowledged receptions so far
+	SeenChunks               []map[string]bool // per output: chunk IDs completely received so far
 }
 
 type Outcome struct {
-	Sc        Scenario
-	Expected  map[string]*Expected // by stamp
-	Stops     []StopObs
-	Servers   [][]*vh.RecvMessage // per output, at the end
-	ServerErrs []string
-	Crash     *vh.Finding
-	Notes     []string
-	Reloads   []ReloadObs
+	Sc             Scenario
+	Expected       map[string]*Expected // by stamp
+	Stops          []StopObs
+	Servers        [][]*vh.RecvMessage // per output, at the end
+	ServerErrs     []string
+	Crash          *vh.Finding
+	Notes          []string
+	Reloads        []ReloadObs
 	OrphansAtStart []string // "generation g: out/dir": queue directories that held chunk files when a generation started and got no pipeline
-	Hang      string // goroutine dump if the scenario did not finish within the budget
-	instances int
+	Hang           string   // goroutine dump if the scenario did not finish within the budget
+	instances      int
 }
 
 func setDefs(sc Scenario) {
@@ -186,6 +188,9 @@ func configText(sc Scenario, root string, servers []string, variant string) stri
 	maxBuf := "200MB"
 	if sc.TinyQuota {
 		maxBuf = fmt.Sprintf("%dB", sc.ChunkBytes*2)
+	}
+	if sc.QuotaChunks > 0 {
+		maxBuf = fmt.Sprintf("%dB", sc.ChunkBytes*sc.QuotaChunks)
 	}
 	fields := "[facility, level, time, host, app, pid, source, extradata, log, kind]"
 	extra := ""
@@ -282,16 +287,16 @@ func line(gen, conn, seq int, r Rec, key string) ([]byte, *Expected) {
 }
 
 type agent struct {
-	loader   interface {
+	loader interface {
 		StartOrchestrator(logger.Logger) base.Orchestrator
 		LaunchInputs(base.Orchestrator) ([]string, func())
 	}
-	gather   func() vh.Metrics
+	gather    func() vh.Metrics
 	gatherErr func() (vh.Metrics, string)
-	orch     base.Orchestrator
-	addr     string
-	stopIn   func()
-	reload   func()
+	orch      base.Orchestrator
+	addr      string
+	stopIn    func()
+	reload    func()
 }
 
 func startAgent(confPath string, reloader bool) (*agent, error) {
@@ -647,6 +652,7 @@ func runScenario(sc Scenario) *Outcome {
 						case <-stopClients:
 						}
 					}
+					e.QueuedAt = time.Now()
 					stream = append(stream, l...)
 					stream = append(stream, '\n')
 					pendingLines++
